@@ -336,6 +336,10 @@ class Rewriter:
                     out.append('assert(%s == %s)' % (self.rw(*args[0]), self.rw(*args[1])))
                 self.counts['debug_assert'] = self.counts.get('debug_assert', 0) + 1
                 prev_end = st[close].b; i = close + 1; continue
+            # (h) R.unwrap_unchecked() -> R.unwrap(): vstd's `requires is_ok()/is_some()` is exactly the safety contract
+            if t.k == ID and t.s == 'unwrap_unchecked' and i > lo and st[i - 1].s == '.' and i + 2 < hi and st[i + 1].s == '(' and st[i + 2].s == ')':
+                out.append('unwrap'); self.counts['unwrap_unchecked'] = self.counts.get('unwrap_unchecked', 0) + 1
+                prev_end = t.b; i += 1; continue
             # (f) self -> this (only when the receiver was `mut self`)
             if self.rename_self and t.k == ID and t.s == 'self':
                 out.append('this'); prev_end = t.b; i += 1; continue
